@@ -147,6 +147,7 @@ type g struct {
 	o     Options
 	byRet map[parser.ValueType][]fn
 	aggs  []string
+	genAt bool
 }
 
 var rangeDependentFns = map[string]bool{"start": true, "end": true, "range": true, "step": true}
@@ -170,10 +171,12 @@ func newG(t *rapid.T, o Options) *g {
 	if len(o.Durations) == 0 {
 		o.Durations = []string{"30s", "1m", "5m", "10m", "1h", "90s", "1m30s"}
 	}
+	genAt := false
 	if len(o.AtTimestamps) == 0 {
 		o.AtTimestamps = []string{"0", "10", "100.5", "1e3", "-5"}
+		genAt = true
 	}
-	gg := &g{t: t, o: o, byRet: map[parser.ValueType][]fn{}}
+	gg := &g{t: t, o: o, byRet: map[parser.ValueType][]fn{}, genAt: genAt}
 	excl := map[string]bool{}
 	for _, n := range o.ExcludeFunctions {
 		excl[n] = true
@@ -513,6 +516,17 @@ func (g *g) offsetDur() string {
 	return d
 }
 
+// atTimestamp draws the literal of an @ modifier: from the vocabulary, or (when the caller gave
+// no vocabulary) composed of a sign, a small whole number of seconds and a millisecond fraction,
+// so that every sign / whole / fraction combination around zero and around a second is reached.
+func (g *g) atTimestamp() string {
+	if !g.genAt || !g.chance("atcomposed", 2) {
+		return g.oneOf("atts", g.o.AtTimestamps)
+	}
+	return g.oneOf("atsign", []string{"", "", "-"}) + g.oneOf("atwhole", []string{"0", "0", "1", "2", "59", "60", "1000", "1600000000"}) +
+		g.oneOf("atfrac", []string{"", "", ".5", ".001", ".999", ".25", ".010", ".100"})
+}
+
 // modifiers renders offset / @ / anchored / smoothed suffixes in a random legal order.
 func (g *g) modifiers(isMatrix bool) string {
 	var parts []string
@@ -524,7 +538,7 @@ func (g *g) modifiers(isMatrix bool) string {
 		if !g.o.NoQueryRangeDependent && g.chance("atpre", 3) {
 			at = g.oneOf("atfn", []string{"start()", "end()"})
 		} else {
-			at = g.oneOf("atts", g.o.AtTimestamps)
+			at = g.atTimestamp()
 			if g.o.Exotic && g.chance("atexotic", 4) {
 				at = g.oneOf("attsx", []string{"1.0005", "1e10", "0x10", "+3", "-0", "1234567.891", "5m", "9.2e15"})
 			}
@@ -575,7 +589,7 @@ func (g *g) matrix(d int) string {
 		if !g.o.NoQueryRangeDependent && g.chance("subatpre", 3) {
 			parts = append(parts, "@ "+g.oneOf("atfn", []string{"start()", "end()"}))
 		} else {
-			parts = append(parts, "@ "+g.oneOf("atts", g.o.AtTimestamps))
+			parts = append(parts, "@ "+g.atTimestamp())
 		}
 	}
 	if len(parts) == 2 && g.chance("subperm", 2) {
